@@ -299,5 +299,44 @@ def rule_stale(ctx):
     return res.finish(1)
 
 
+def rule_rowlocal(ctx):
+    """'projects every record onto the components about the *training* mean': Pca::predict_inplace touches the batch only
+    through row-local operations (rules/c03.py BatchAxis) - a statistic of the batch itself (its column mean, say) in the
+    centring makes the projection of a record depend on the other records it is predicted with, and coincides with the
+    stored mean only on the training data."""
+    from . import c03
+    res = RuleResult("R-C18-rowlocal", "Pca::predict_inplace uses the batch only row by row: no reduction along the batch axis enters the projection")
+    F = ctx.facts()
+    c03.build_index(F)
+    n = 0
+    for fn in c03.predictors(F):
+        d = fn["d"]
+        if d["name"] != "predict_inplace" or len(fn["params"]) < 3 or d["krate"] != "linfa_reduction" or not (d.get("self_adt") or "").endswith("Pca"):
+            continue
+        if fn["params"][1].get("k") != "Bind" or fn["params"][2].get("k") != "Bind":
+            continue
+        n += 1
+        key = c03.inst_key(fn)
+        res.instance(key)
+        before = len(res.violations)
+        ba = c03.BatchAxis(F, res, key)
+        ba.run(fn, {fn["params"][1]["local"]: 0}, [fn["params"][2]["local"]])
+        if len(res.violations) == before:
+            res.ok()
+    seen, uniq = set(), []
+    for v in res.violations:
+        if v.key not in seen:
+            seen.add(v.key)
+            uniq.append(v)
+    res.violations = uniq
+    if n < 1:
+        res.missing_anchor("<Pca as PredictInplace>::predict_inplace")
+    return res.finish(1)
+
+
 def rules(tier):
-    return [rule_guard, rule_n, rule_project, rule_memorder, rule_overwrite, rule_stale, rule_ratio_paths, c01.rule_width]
+    from . import carry, c04
+    from . import precision
+    return [rule_guard, rule_n, rule_project, rule_memorder, rule_overwrite, rule_stale, rule_ratio_paths, c01.rule_width,
+            carry.make_clone_rule("R-C18-clone", {"linfa_reduction"}, 4), carry.make_setter_rule("R-C18-override", {"linfa_reduction"}, 2), rule_rowlocal,
+            precision.make_rule("R-C18-precision", lambda f: f["d"]["krate"] == "linfa_reduction" and "pca" in fn_file(f), 9, "linfa-reduction pca")]
